@@ -29,6 +29,7 @@ import Hdl21Model.Lemmas.ConnTypes
 import Hdl21Model.Lemmas.Orphanage
 import Hdl21Model.Lemmas.ModulePipe
 import Hdl21Model.Props.C06
+import Hdl21Model.Lemmas.ResolveUnit
 namespace Hdl21.Props.C02
 open Hdl21 Hdl21.Runner
 
@@ -338,6 +339,68 @@ theorem module_elaboration_accepts (ctx : PRef → Option (List (String × Nat))
     rw [hsl]
     exact (hkeep i hi pc hpc kc.2 hrs).2
   exact ⟨⟨h.name, h.signals, h.ports, is⟩, by unfold elabModule; simp [ho, hc, hs, hc', ho']⟩
+
+/-- **For unit-step modules the whole pipeline — passes and exporter — accepts exactly the well-formed ones.** If every index in
+    every connection is an integer or a unit-step range (what C03 demands be accepted) and no concatenation is empty, then a
+    package module comes back **iff** every instance is well-formed.  Nothing ill-formed is exported (C02), nothing well-formed
+    is refused (C03's acceptance clause, here for a whole module). -/
+theorem module_pipeline_accepts_iff (ctx : PRef → Option (List (String × Nat))) (h : HModule) (hm : ModOK ctx h)
+    (hne : ∀ i ∈ h.instances, ∀ pc ∈ i.conns, pc.2.noEmpty = true)
+    (hu : ∀ i ∈ h.instances, ∀ pc ∈ i.conns, pc.2.unit = true) :
+    (∃ p, pipeline (fuelOf h) ctx h = .ok p) ↔ ∀ i ∈ h.instances, InstWF ctx (sigList h) i := by
+  constructor
+  · rintro ⟨p, hp⟩
+    exact module_accepts_only_wellformed (fuelOf h) ctx h p hm hp
+  · intro hwf
+    obtain ⟨e, he⟩ := module_elaboration_accepts ctx h hm hwf hne
+    obtain ⟨_, hc, hs, _, _⟩ := elabModule_inv he
+    obtain ⟨_, _, hport, hrel⟩ := sliceResolver_inv hs
+    -- every resolved connection is exported
+    have hexp : ∀ r ∈ e.instances, ∃ cs, exportConns r.conns = .ok cs := by
+      intro r hr
+      obtain ⟨i, hi, _, _, _, rcs⟩ := forall2_mem_right hrel r hr
+      obtain ⟨ports, hcr, hpass⟩ := connTypes_inst hc i hi
+      have hall := (ConnTypes.passes_iff ports i.conns (hm.2.2.2.2.2 _ _ hcr) (hm.2.2.2.2.1 i hi)).mp hpass
+      have key : ∀ (l : List (String × SConn)), (∀ kc ∈ l, ∃ t, exportTarget kc.2 = .ok t) → ∃ cs, exportConns l = .ok cs := by
+        intro l
+        induction l with
+        | nil => intro _; exact ⟨[], by rw [exportConns]⟩
+        | cons kc rest ih =>
+          intro hl
+          obtain ⟨t, ht⟩ := hl kc (List.mem_cons_self ..)
+          obtain ⟨cs, hcs⟩ := ih (fun x hx => hl x (List.mem_cons_of_mem _ hx))
+          obtain ⟨pn, c⟩ := kc
+          exact ⟨(pn, t) :: cs, by rw [exportConns]; simp only [ht, hcs]⟩
+      apply key
+      intro kc hkc
+      obtain ⟨pc, hpc, _, hrs⟩ := forall2_mem_right rcs kc hkc
+      -- the written connection has a width (it sits on a port), hence a denotation
+      obtain ⟨pw, hpw, hpn⟩ := List.mem_map.mp (hall.2 pc hpc)
+      obtain ⟨c, hcm, hw⟩ := hall.1 pw hpw
+      have hceq : c = pc.2 := by
+        have hx : (pw.1, pc.2) ∈ i.conns := by rw [hpn]; exact hpc
+        exact (ConnTypes.unique_conn i.conns pw.1 c pc.2 (hm.2.2.2.2.1 i hi) hcm hx).symm
+      obtain ⟨bs, hd, _⟩ := width_denote pc.2 pw.2 (hceq ▸ hw)
+      exact export_total kc.2 (Hdl21.Props.C03.resolve_flat _ pc.2 kc.2 hrs)
+        ((resolve_unit (fuelOf h)).2.2.1 pc.2 kc.2 hrs (hu i hi pc hpc))
+        ⟨bs, Hdl21.Props.C03.resolve_preserves_bits _ pc.2 kc.2 bs hrs hd⟩
+    have hinsts : ∃ ps, exportInsts e.instances = .ok ps := by
+      have key : ∀ (l : List HInst), (∀ r ∈ l, ∃ cs, exportConns r.conns = .ok cs) → ∃ ps, exportInsts l = .ok ps := by
+        intro l
+        induction l with
+        | nil => intro _; exact ⟨[], by rw [exportInsts]⟩
+        | cons r rest ih =>
+          intro hl
+          obtain ⟨cs, hcs⟩ := hl r (List.mem_cons_self ..)
+          obtain ⟨ps, hps⟩ := ih (fun x hx => hl x (List.mem_cons_of_mem _ hx))
+          exact ⟨⟨r.name, r.ref, r.params, cs⟩ :: ps, by rw [exportInsts]; simp only [hcs, hps]⟩
+      exact key e.instances hexp
+    obtain ⟨ps, hps⟩ := hinsts
+    obtain ⟨q, hq⟩ := exportPorts_ok e.ports (by rw [hport]; exact hm.2.2.1)
+    refine ⟨⟨e.name, (e.signals ++ e.ports).map (fun s => (s.name, s.width)), q, ps⟩, ?_⟩
+    unfold pipeline; rw [he]
+    show RoundTrip.exportModule e = _
+    unfold RoundTrip.exportModule; rw [hq, hps]
 
 /-- non-vacuity: a well-formed module gets through; the same module with bit 2 of a two-bit bus, with a port left open, with a
     three-bit connection on a two-bit port, with a signal of another module, is refused -/
